@@ -179,10 +179,12 @@ class GeoNetwork(SpatialNetwork):
                          silence_level=silence_level)
 
         #  Extract node weights
-        if "node_weight_nsi" in graph.vs.attribute_names():
-            node_weights = \
-                np.array(graph.vs.get_attribute_values("node_weight_nsi"))
-            net.node_weights = node_weights
+        #  (the GML format strips underscores from attribute names)
+        for key in ("node_weight_nsi", "nodeweightnsi"):
+            if key in graph.vs.attribute_names():
+                net.node_weights = \
+                    np.array(graph.vs.get_attribute_values(key))
+                break
 
         #  Overwrite igraph Graph object in Network instance to restore link
         #  attributes/weights
